@@ -14,6 +14,7 @@ import PasfmtModel.Model.PipelineFull
 import PasfmtModel.Model.LayoutCheck
 import PasfmtModel.Model.CrlfCheck
 import PasfmtModel.Model.ParserChecks
+import PasfmtModel.Model.BytesCheck
 
 namespace Pasfmt
 
@@ -263,7 +264,11 @@ def handleFull (cfgS inpS alnumS : String) : String :=
       let c03 := layoutStatus cfg (fun b => alnum.contains b) inp out
       -- the premise of `C08.C08_format_full_checked` (tally only)
       let c08 := if canonPremisesB cfg (fun b => alnum.contains b) inp then "hold" else "no"
-      s!"out={toHex out}\tinfo_c09={c09}\tinfo_c03={c03}\tinfo_c08={c08}"
+      -- the hypothesis `CanonState` of the byte-level clauses of C08 on the final token state (tally only)
+      let c08b := match finalStateFull cfg (fun b => alnum.contains b) inp with
+        | some ftz => if canonStateB cfg.settings ftz then "hold" else "no"
+        | none => "none"
+      s!"out={toHex out}\tinfo_c09={c09}\tinfo_c03={c03}\tinfo_c08={c08}\tinfo_c08b={c08b}"
   | _, _, _ => "bad-record"
 
 /-- the `full2` stream: two layouts of the same tokens through the closed model, plus the premises of the layout
